@@ -50,6 +50,18 @@ Definition src_of (items : list (Z * bool)) (rst : bool) : src := mkSrc items it
 Definition wrap_items (l : list Z) : list (Z * bool) := map (fun v => (v, true)) l.
 Definition wrap_ints (l : list Z) : src := src_of (wrap_items l) true.
 
+(* the values a source delivers (its items with ok = true), in order *)
+Definition live_items (its : list (Z * bool)) : list Z := map fst (filter snd its).
+
+(* every item except possibly the last one has ok = true: the one imparity
+   between HasNext and Next that the contract in iterator.go describes (the
+   last element vanished between the two calls) *)
+Fixpoint tail_ok (its : list (Z * bool)) : bool :=
+  match its with
+  | [] => true
+  | p :: t => match t with [] => true | _ :: _ => snd p && tail_ok t end
+  end.
+
 (* HasNext: idx < len(i) *)
 Definition src_has_next (s : src) : bool :=
   match s_rest s with [] => false | _ :: _ => true end.
